@@ -334,3 +334,25 @@ PROPS['C17'] = {
 }
 
 NOT_APPLICABLE = {}
+
+
+# ------------------------------------------------------------------------------------------------- tie (a) for character predicates
+# EmmetProofs/LeafAgree.lean: every hand-written character predicate of a model = the code's predicate, evaluated by the translator on
+# every run, on Gen.Leaf.points. Registered with the properties whose models use them.
+LEAF = {
+    'T': ['T_isNumber', 'T_isAlpha', 'T_isAlphaWord', 'T_isAlphaNumericWord', 'T_isWhiteSpace', 'T_isSpace', 'T_isQuote', 'T_isDigitPy', 'T_isOpenBracket', 'T_isElementName', 'T_operatorType', 'T_bracketType'],
+    'CA': ['CA_isNumber', 'CA_isAlpha', 'CA_isAlphaWord', 'CA_isAlphaNumericWord', 'CA_isQuote', 'CA_isSpace', 'CA_isIdentPrefix', 'CA_isHex', 'CA_isKeyword', 'CA_isLiteralCh'],
+    'H': ['H_isAlpha', 'H_isNumber', 'H_isSpace', 'H_isQuote', 'H_nameStartChar', 'H_nameChar', 'H_isTerminator', 'H_isUnquoted'],
+    'C': ['C_isSpace', 'C_isQuote', 'C_isOp'],
+    'M': ['M_isWhiteSpace', 'M_isSpace', 'M_isNumber', 'M_isSign', 'M_isOperator'],
+    'X': ['X_isAlpha', 'X_isNumber', 'X_isQuote', 'X_isAbbreviation', 'X_isIdent', 'X_isWs', 'X_isUnquotedValue', 'X_isOpenBracket', 'X_isCloseBracket'],
+}
+LEAF_USE = {'C01': 'T', 'C02': 'T', 'C03': 'T', 'C04': 'T', 'C07': 'T CA', 'C18': 'T CA', 'C05': 'CA', 'C06': 'CA', 'C09': 'H', 'C10': 'C', 'C16': 'H C', 'C17': 'H C',
+            'C19': 'M', 'C11': 'X', 'C12': 'T', 'C13': 'T', 'C14': 'T', 'C15': 'T', 'C08': 'T CA', 'C20': 'T CA'}
+for _p, _use in LEAF_USE.items():
+    PROPS[_p]['lean_targets'] = PROPS[_p]['lean_targets'] + ['EmmetProofs.LeafAgree']
+    PROPS[_p]['lean_imports'] = PROPS[_p]['lean_imports'] + ['EmmetProofs.LeafAgree']
+    for _ns in _use.split():
+        for _t in LEAF[_ns]:
+            PROPS[_p]['theorems'] = PROPS[_p]['theorems'] + [thm('Leaf.' + _t, 'tie (a): the model\'s character predicate %s = the code\'s predicate (evaluated from /repo on this run) on every code point below 0x180 and on both sides of every place where a predicate of the code changes its value' % _t.replace('_', '.', 1))]
+TRUSTED_BASE = TRUSTED_BASE + ['character predicates: the models\' predicates are kernel-checked equal to tables obtained by evaluating the code\'s predicates on every run (Gen.Leaf, 0..0x2FFF; str.isdecimal / str.isdigit beyond ASCII are outside the models)']
